@@ -12,7 +12,7 @@ import (
 
 // C12 facts (pkg/koordlet/resourceexecutor):
 //   registry  : resource name -> constructor expression registered in updater.go init()
-//   passes    : the top-level for-loops of LeveledUpdateBatch: (index ascending?, updater method called, inner loop is a forward range)
+//   passes    : the top-level for-loops of LeveledUpdateBatch: (index ascending?, updater method called, inner loop walks the level forwards?)
 //   mergeWriteCachesWritten / mergeSkipCachesOld : what MergeFuncUpdateCgroup returns (= what gets cached)
 func c12Expr(x ast.Expr) string {
 	switch v := x.(type) {
@@ -250,12 +250,25 @@ func init() {
 				var calls []string
 				needFirst := false
 				for _, in := range fs.Body.List {
-					rs, ok := in.(*ast.RangeStmt)
-					if !ok {
+					var innerBody *ast.BlockStmt
+					switch lp := in.(type) {
+					case *ast.RangeStmt:
+						fwd = "true" // `for _, updater := range updaters[i]` iterates forward
+						innerBody = lp.Body
+					case *ast.ForStmt:
+						// `for j := len(updaters[i]) - 1; j >= 0; j--` iterates backwards, `for j := 0; …; j++` forwards
+						if p, ok := lp.Post.(*ast.IncDecStmt); ok && p.Tok == token.DEC {
+							fwd = "false"
+						} else if ok && p.Tok == token.INC {
+							fwd = "true"
+						} else {
+							e.fail("unexpected inner loop in LeveledUpdateBatch")
+						}
+						innerBody = lp.Body
+					default:
 						continue
 					}
-					fwd = "true" // `for _, updater := range updaters[i]` iterates forward
-					ast.Inspect(rs.Body, func(n ast.Node) bool {
+					ast.Inspect(innerBody, func(n ast.Node) bool {
 						c, ok := n.(*ast.CallExpr)
 						if !ok {
 							return true
@@ -293,11 +306,22 @@ func init() {
 				}
 				var items []string
 				for _, in := range fs.Body.List {
-					rs, ok := in.(*ast.RangeStmt)
-					if !ok {
+					var innerBody *ast.BlockStmt
+					switch lp := in.(type) {
+					case *ast.RangeStmt:
+						innerBody = lp.Body
+					case *ast.ForStmt:
+						innerBody = lp.Body
+					default:
 						continue
 					}
-					for _, b := range rs.Body.List {
+					for _, b := range innerBody.List {
+						// `updater := updaters[i][j]` of an index loop only binds the loop variable
+						if as, ok := b.(*ast.AssignStmt); ok && as.Tok == token.DEFINE && len(as.Rhs) == 1 {
+							if _, ok := as.Rhs[0].(*ast.IndexExpr); ok {
+								continue
+							}
+						}
 						switch v := b.(type) {
 						case *ast.IfStmt:
 							it := "if:" + c12ExprL(v.Cond)
